@@ -11,7 +11,8 @@ CHECKS = {
         text="Bounded symbolic model checking of the nullable-comparison kernels: every acyclic MIR path of "
              "TrueName::is_superset_of (accessors inlined), as_nullable, Name::is_nullable/is_null and their "
              "closures, Name::union and its filter closure is executed symbolically; the documented nullable rule "
-             "is asserted for all values of the flags and callee results; z3 answers unsat or gives a model that is "
+             "is asserted for all values of the flags and callee results; the `?` operator demands a left operand that admits None and "
+             "the None literal is constrained as undefined; z3 answers unsat or gives a model that is "
              "replayed through the natively built transpiler before it is reported.",
         note="Kernels only: that every consuming position of the language reaches this comparison is outside the "
              "claim. Uninterpreted: StringName-level tests, HashSet and iterator adaptors. Clone = identity. "
@@ -48,9 +49,12 @@ CHECKS["C03"] = dict(
     text="Bounded symbolic model checking of panic-freedom for the position, lexer-state and diagnostic rendering "
          "kernels: every overflow assert, unwrap/expect and cast of format_location (+closures), format_err, "
          "State::token/space/flush_indents, Lex::new, Position::get_width and of one whole lexer step (into_tokens, first character symbolic) is a path end; z3 shows all of them "
-         "unreachable for every valid position / lexer state within the bounds, or returns values that are replayed natively.",
-    note="RESTRICTED claim: lexing kernels and rendering arithmetic only. Parser, context builder, constraint generation, "
-         "unification, generation, stack depth and time bounds are outside (not executable by Kani, not loop-free integer "
+         "unreachable for every valid position / lexer state within the bounds, or returns values that are replayed natively. "
+         "Unifier kernels: the queue arithmetic of unify_link / unify_type / link::reinsert has no panic path for any queue length, "
+         "Constraints::reinsert refuses exactly flagged constraints and Constraint::flag sets the flag (a constraint re-enters the queue "
+         "at most once); parser kernels: peek_while_fn / eat_while go round only on a non-Eof token with a successful body.",
+    note="RESTRICTED claim: lexing kernels, rendering arithmetic, the unifier's queue / re-insertion kernels and the parser's generic loops. "
+         "Parser functions, context builder, constraint generation, the rest of unification, generation, stack depth and time bounds are outside (not executable by Kani, not loop-free integer "
          "facts). Bounds: coordinates <= 2^31-2, lexer state <= 2^20, <= 2^20 lines.",
     design="§4 C03")
 CHECKS["C14"] = dict(
@@ -59,7 +63,7 @@ CHECKS["C14"] = dict(
          "State::token/newline/space/flush_indents that layout emission is independent of line number, pending newlines "
          "and token kind, that a newline resets (line_indent, token_this_line, column), that spaces after a token only "
          "move the column, that equal indentation emits no layout, that flush depends on cur_indent only, that the "
-         "parser's filter closure drops exactly Comment tokens, that parse_block skips runs of NL tokens, and that the "
+         "parser's filter closure drops exactly Comment tokens, that parse_block and parse_statements skip runs of NL tokens, and that the "
          "lexer step on CR LF leaves exactly the state of the step on LF (CR followed by anything else is an error).",
     note="Token-stream level only: that the parser is insensitive to the NUMBER of consecutive NL tokens is outside the "
          "claim (observed counterexample: a blank line directly before `else` is rejected, DESIGN §8 O1). "
@@ -112,7 +116,9 @@ CHECKS["C05"] = dict(
     text="Bounded symbolic model checking of the signature-enforcement kernels: one iteration of call_parameters' "
          "formal/actual zip from an arbitrary loop state (arity rule; constraint parent = declared parameter type with "
          "its nullable flag, child = argument), the Return arm of gen_stmt, the annotated arms of id_from_var, the FunDef "
-         "arm of gen_def (body constrained against the declared return type whatever the raises clause is) and the "
+         "arm of gen_def (body constrained against the declared return type whatever the raises clause is), unify_fun_arg "
+         "(method / operator calls), function_access / field_access (direction of result and field constraints), the shadow renaming "
+         "tables of Expected::map_exp, the operator typing table of gen_op / gen_magic, the truthy / branch constraints of gen_flow and the "
          "decision block of unify_type (receiver/argument order of the superset test, error propagation, Any).",
     note="Kernels only: loops are cut at their headers (one-step semantics); that a violation is still caught in every "
          "nesting context and the accepted-exactly-when direction for whole programs are outside. Context::class / "
@@ -126,7 +132,7 @@ CHECKS["C07"] = dict(
          "immutable, the name undefined (unless self in a class) or some visible definition immutable; check_iden_mut "
          "reports exactly the collected errors; gen_call's Reassign arm checks before it constrains; id_from_var "
          "records `mutable && field-mutable` at every insert_var site; branch and loop scopes do not leak a shadowing "
-         "re-definition (flow obligations shared with C09).",
+         "re-definition (flow obligations shared with C09); check_reassignable builds the identifier chain receiver-first.",
     note="<= 2 definitions per name; loops cut at headers. Outside: shadowing offsets (var_mapping), tuple destructuring "
          "through match_name, fin self / fin fields in the unifier (observed: assignment to a `fin` class field through an "
          "instance is accepted — outside the encoded kernels, DESIGN §8).",
@@ -139,7 +145,9 @@ CHECKS["C08"] = dict(
          "is unknown or has no caught ancestor; the Handle arm of gen_flow passes before ∪ arms to the guarded "
          "expression and exactly the previous set to the arms and everything after; raise statements and context "
          "function calls consult the check with the current environment; the environment returned by a handle keeps every "
-         "other field; Class::has_parent(&Name) (used for `raise [E]` declarations) is true iff some parent answers true.",
+         "other field; Class::has_parent(&Name) (used for `raise [E]` declarations) is true iff some parent answers true; gen_def lets the "
+         "loop over a raises clause go on only for known descendants of Exception and generates the body with the declared raises added to "
+         "the caught set; convert_handle turns every arm into `except C [as id]` with its own class and body.",
     note="<= 2 names per set; hierarchy depth, the try/except translation (converter) and raises of methods resolved in "
          "the unifier are outside.",
     design="§4 C08")
@@ -150,7 +158,8 @@ CHECKS["C09"] = dict(
          "sequencing (statement i+1 in the environment returned by statement i, loop-carried variable tracked through "
          "the havocked loop state); the IfElse/While/For arms of gen_flow (branches and bodies from the incoming "
          "environment, result incoming ∩ (then ∪ else) / incoming); Environment::union/intersection keep the receiver's "
-         "variables; reading an unassigned self field is an error.",
+         "variables; reading an unassigned self field is an error; identifiers are renamed to their current shadow with the "
+         "scope-local table first (Expected::map_exp).",
     note="Outside: forward references between top-level definitions, comprehension variables, class scopes, the match-arm "
          "loop of constrain_cases, the constructor's final unassigned test. Observed (by design of the checker, not "
          "claimed): a name defined in BOTH branches is still rejected afterwards.",
@@ -162,7 +171,8 @@ CHECKS["C20"] = dict(
          "search over <= 2 declared parents with error propagation), TrueName::is_superset_of (nullable rules, shared with "
          "C06), the generics loops keep a conjunction, Class::has_parent(&Name), the loop body of Name::is_superset_of over "
          "<= 3 members (member-wise union rule, accumulator), Ord for TrueName (total order consistent with equality, "
-         "under axioms for the derived StringName order) and the None-absorbing Name::union (looks at the merged set).",
+         "under axioms for the derived StringName order), the None-absorbing Name::union (looks at the merged set) and the direction of "
+         "StringName / TrueName::is_superset_of (the class looked up is OTHER's, asked whether SELF is an ancestor).",
     note="Outside: transitivity, inheritance chains beyond one inductive step, associativity / idempotence of union "
          "(HashSet operations).",
     design="§4 C20")
@@ -181,7 +191,9 @@ CHECKS["C15"] = dict(
     text="Bounded model checking of the name tables: Kani decides concrete_to_python (identifiers <= 10 bytes) and "
          "as_op_or_id (<= 6 bytes, longer keywords concretely) against the documented lists; mirsym executes the FunDef "
          "arm of convert_def and the Id arm of convert_node with the identifier free and z3 decides that a function "
-         "keeps its name unless it is the documented constructor name, and that identifiers are only changed by the table.",
+         "keeps its name unless it is the documented constructor name (and nothing else becomes that name), that identifiers are only "
+         "changed by the table, and (lexer-step kernel) that the identifier scanning loop is left only before a character outside "
+         "[A-Za-z0-9_] and the number loop never before a digit (maximal munch).",
     note="Name tables and generator special cases only; commutation of the whole pipeline with renaming (unbounded "
          "names, x@1 shadow encoding) is outside. Known finding: `size` -> `__size__`.",
     design="§4 C15")
@@ -191,7 +203,8 @@ CHECKS["C12"] = dict(
     text="Bounded model checking of the generator's two hash-order escape routes: the positions extract_class records for class-body "
          "statements (and computes for the synthesised constructor) are extracted from the MIR of its closures and z3 decides that no two "
          "can be equal for statement indices below 2^20 - equal positions would let the HashMap's iteration order through the stable "
-         "sort; Name::to_py / StringName::to_py render union members from sorted(). A collision is replayed by transpiling a class of "
+         "sort; Name::to_py / StringName::to_py render union members from sorted(); Hash for Name feeds its members in the order of a key "
+         "that is the member's whole variant. A collision is replayed by transpiling a class of "
          "that shape in 12 fresh processes and comparing the bytes.",
     note="RESTRICTED claim: hash-order iteration inside the generator only. Hash-ordered iteration in the checker (order of "
          "diagnostics, is_temporary / args() on the first element of a set), duplicate keys in the class-body map, threads, time and "
@@ -215,7 +228,8 @@ CHECKS["C13"] = dict(
          "condition entails that mamba_to_python (called once with all sources) returned Ok; the i-th generated source goes to "
          "out_dir.join(i-th relative path).with_extension(py), input and output paths being images of the same relative_files result; "
          "mamba_to_python returns Ok only when the error sides of its three partitions are empty, builds one context from all parsed "
-         "files and runs every stage over all files through order-preserving adaptors only.",
+         "files and runs every stage over all files through order-preserving adaptors only; write_source opens with write + create + "
+         "truncate at exactly the given path; diagnostics name a file by its whole path below the source directory.",
     note="RESTRICTED claim (driver kernels): that checking a file is independent of the order of the others and of unrelated files is the "
          "whole checker and only exercised by the replay scenarios; I/O failures during the write loop, the glob crate and non-UTF-8 "
          "paths are outside.",
